@@ -647,6 +647,14 @@ func loadRenames(P *Program, path string) {
 		}
 	}
 
+	// 5. literals that became named types with one method (used through an interface): found now, so that their
+	// reference names (<function>$1) are in place whichever rule runs first
+	for k, f := range curFn {
+		if _, known := ref.Funcs[k]; known || t.funcAlias[f] != "" {
+			anonFuncs(f)
+		}
+	}
+
 	// printed-name replacements, longest first
 	for f, old := range t.funcAlias {
 		t.strRepl = append(t.strRepl, [2]string{shortenFull(f.String()), shortenFull(old)}, [2]string{f.String(), old})
